@@ -24,6 +24,48 @@ theorem C10_isEmpty_iff (g : Goal) :
   cases g.targetMin.isSeries <;> cases g.targetMax.isSeries <;>
     cases anyFinite g.targetMin <;> cases anyFinite g.targetMax <;> simp
 
+/-- **Empty goals, entry by entry** (the statement the harness oracle re-states on the goal's data): a goal
+    is empty iff it has a target side (a `Timeseries`, or some finite number) and EVERY entry of BOTH
+    sides is non-finite (NaN / ±inf).  One finite entry anywhere — min or max side, `Timeseries`,
+    vector or scalar — makes the goal non-empty. -/
+theorem C10_isEmpty_iff_entries (g : Goal) :
+    isEmpty g = true ↔
+      (hasSide g.targetMin = true ∨ hasSide g.targetMax = true) ∧
+        ∀ x ∈ g.targetMin.vals ++ g.targetMax.vals, x.isFinite = false := by
+  have hany : ∀ t : Target, anyFinite t = false ↔ ∀ x ∈ t.vals, x.isFinite = false := by
+    intro t
+    unfold anyFinite
+    constructor
+    · intro h x hx
+      cases hf : x.isFinite with
+      | false => rfl
+      | true => exact absurd (List.any_eq_true.2 ⟨x, hx, hf⟩) (by simp [h])
+    · intro h
+      cases ha : t.vals.any XVal.isFinite with
+      | false => rfl
+      | true =>
+        obtain ⟨x, hx, hf⟩ := List.any_eq_true.1 ha
+        rw [h x hx] at hf
+        cases hf
+  rw [C10_isEmpty_iff]
+  simp only [List.mem_append, hasSide]
+  constructor
+  · rintro ⟨hs, h1, h2⟩
+    refine ⟨?_, ?_⟩
+    · rcases hs with hs | hs
+      · left; simp [hs]
+      · right; simp [hs]
+    · intro x hx
+      rcases hx with hx | hx
+      · exact (hany _).1 h1 x hx
+      · exact (hany _).1 h2 x hx
+  · rintro ⟨hs, hall⟩
+    have h1 : anyFinite g.targetMin = false := (hany _).2 (fun x hx => hall x (Or.inl hx))
+    have h2 : anyFinite g.targetMax = false := (hany _).2 (fun x hx => hall x (Or.inr hx))
+    refine ⟨?_, h1, h2⟩
+    rw [h1, h2] at hs
+    simpa using hs
+
 /-- **Which priorities exist**: the priority list is strictly increasing (so: ascending numeric
     order, each value once, duplicates merged), and `p` is in it iff some non-empty goal has
     `int(priority) = p` — an empty goal creates no priority, and the subproblem of every listed
@@ -50,6 +92,23 @@ theorem C10_priorities (gs : List Goal) :
     exact ⟨hg, hpp, he⟩
   rw [hnil] at this
   cases this
+
+/-- **A finite entry creates the priority**: a goal holding a finite number in ANY entry of EITHER target
+    side (however many other entries are NaN / inf), and every goal without target sides (minimisation
+    goal), has its `int(priority)` in the priority list — so by `C10_order` / `C10_success` it is
+    attempted unless an earlier priority failed. -/
+theorem C10_finite_entry_creates_priority (gs : List Goal) (g : Goal) (hg : g ∈ gs)
+    (h : (∃ x ∈ g.targetMin.vals ++ g.targetMax.vals, x.isFinite = true) ∨
+         (hasSide g.targetMin = false ∧ hasSide g.targetMax = false)) :
+    pyInt g.priority ∈ priorities gs := by
+  refine ((C10_priorities gs).2.1 _).2 ⟨g, hg, ?_, rfl⟩
+  cases he : isEmpty g with
+  | false => rfl
+  | true =>
+    obtain ⟨hs, hall⟩ := (C10_isEmpty_iff_entries g).1 he
+    rcases h with ⟨x, hx, hf⟩ | ⟨h1, h2⟩
+    · rw [hall x hx] at hf; cases hf
+    · rw [h1, h2] at hs; simp at hs
 
 /-- **Order**: the priorities attempted (hook `priority_started`), in the order of attempt, are
     a prefix of the strictly increasing priority list — ascending, each at most once. -/
@@ -400,6 +459,23 @@ private def gsEx : List Goal :=
 
 example : priorities gsEx = [-5, 2, 3, 7] := by decide +kernel
 example : gsEx.map isEmpty = [false, false, false, false, false, true] := by decide +kernel
+
+/-- partly finite targets: max only / min only / vector / ±inf entries; all-non-finite series are empty,
+    an all-NaN plain vector is no target at all (minimisation goal) -/
+private def gsPart : List Goal :=
+  [⟨1, nanT, ⟨true, [XVal.fin 5, XVal.nan, XVal.pinf]⟩⟩,          -- max only, some entries finite
+   ⟨2, ⟨true, [XVal.nan, XVal.ninf]⟩, ⟨true, [XVal.pinf, XVal.nan]⟩⟩,  -- both sides, nothing finite: empty
+   ⟨3, ⟨false, [XVal.nan, XVal.fin 1]⟩, nanT⟩,                     -- numpy vector, one finite entry
+   ⟨4, ⟨false, [XVal.nan, XVal.nan]⟩, nanT⟩,                       -- all-NaN vector: minimisation goal
+   ⟨5, ⟨true, [XVal.nan, XVal.nan]⟩, ⟨true, [XVal.nan, XVal.fin 6]⟩⟩,  -- min side empty, max side partly finite
+   ⟨6, nanT, ⟨true, [XVal.pinf, XVal.pinf]⟩⟩]                      -- max only, all +inf: empty
+
+example : gsPart.map isEmpty = [false, true, false, false, false, true] := by decide +kernel
+example : priorities gsPart = [1, 3, 4, 5] := by decide +kernel
+example : ∃ g ∈ gsPart, (∃ x ∈ g.targetMin.vals ++ g.targetMax.vals, x.isFinite = true) ∧
+    (∃ x ∈ g.targetMin.vals ++ g.targetMax.vals, x.isFinite = false) ∧ isEmpty g = false :=
+  ⟨⟨1, nanT, ⟨true, [XVal.fin 5, XVal.nan, XVal.pinf]⟩⟩, List.Mem.head _, ⟨XVal.fin 5, by simp [nanT], rfl⟩,
+    ⟨XVal.nan, by simp [nanT], rfl⟩, by decide +kernel⟩
 
 /-- failure at the third priority: stop, `False`, cached results of priority 2 stay exposed -/
 example :
